@@ -14,7 +14,15 @@ class FakePort:
         self.writes = []
         self.n_reads = 0
         self.n_writes = 0
-        self.write_exc_at = set(write_exc_at)
+        self.write_exc_cls = {}
+        plain = []
+        for w in write_exc_at:
+            if isinstance(w, (list, tuple)):
+                plain.append(w[0])
+                self.write_exc_cls[w[0]] = w[1]
+            else:
+                plain.append(w)
+        self.write_exc_at = set(plain)
         self.closed = False
         self.close_exc = close_exc
         self.responder = responder      # optional callable(bytes written) -> list of reply items (device model)
@@ -25,7 +33,8 @@ class FakePort:
         self.n_writes += 1
         if k in self.write_exc_at:
             self.log.append(('write-exc', data))
-            raise serial.SerialException('scripted write failure')
+            cls = {'OSError': OSError, 'RuntimeError': RuntimeError}.get(self.write_exc_cls.get(k), serial.SerialException)
+            raise cls('scripted write failure')
         self.writes.append(data)
         self.log.append(('write', data))
         if self.responder is not None:
